@@ -139,6 +139,14 @@ def universe_cases(u, tier):
             for x in enum_grammars(3, u["leaves"], u["unary"], u["binary"]):
                 gs.append(un(x))
     if u.get("post"): gs = [u["post"](g) for g in gs]
+    # repetition items must consume (the property classes exclude the others; a configured repetition of a nullable item
+    # used as a unit parser has no progress assertion and loops forever)
+    def wf(x):
+        if isinstance(x, list):
+            if x and x[0] in ("IRep", "IRepCfg", "ISep") and not consuming(x[1]): return False
+            return all(wf(a) for a in x)
+        return True
+    gs = [g for g in gs if wf(g)]
     inputs = list(all_strings([A, B], 3 if tier == "quick" else 4))
     out = [(g, inp) for g in gs for inp in inputs]
     _UCACHE[key] = out
@@ -191,6 +199,18 @@ BACKTRACK = {"Or", "Choice", "ChoiceVec", "OrNot", "Not", "AndIs", "Rewind", "Fi
 
 def nt_backtrack(g, inp):
     return len(inp) > 0 and has_head(g, BACKTRACK)
+
+def c08_hook(G, rng):
+    if rng.random() < 0.3:
+        ps = rng.sample(DELIMS, rng.randint(1, 3))
+        nd = ["NestedDelims", ps[0][0], ps[0][1], [list(x) for x in ps[1:]]]
+        inner = G.g(rng.randint(1, 2))
+        rec = ["RecoverVia", ["DelimitedBy", inner, ["Just", [ps[0][0]]], ["Just", [ps[0][1]]]], nd]
+        c = rng.random()
+        if c < 0.4: return rec
+        if c < 0.7: return ["Collect", "CVec", ["IRep", rec, 0, "inf"]]
+        return ["Then", rec, G.g(1)]
+    return G.g(rng.randint(1, 4))
 
 C01_CTORS = CORE
 C02_CTORS = ["Any", "Just", "OneOf", "NoneOf", "Then", "Or", "Map", "Filter", "OrNot", "To"] + ITER * 3 + ["MapWith", "ToSlice", "WithCtx", "IgnoreWithCtx", "JustCfg"]
@@ -278,9 +298,10 @@ SPECS = {
                 nontrivial=lambda g, inp: len(inp) > 0 and has_head(g, {"MapWith", "ToSpan", "ToSlice", "TryMapWith", "FoldlWith", "FoldrWith", "IMapWith"}),
                 rule="C01/C02 grammars with span / slice captures; multi-byte characters in the alphabet; "
                      "non-trivial = a capture node present and non-empty input"),
-    "C08": Spec("C08", CORE + ITER + EMIT + RECOVER * 6, obs_full, sem_obs=obs_vv_emis, ekinds=("rich",), emit_bias=0.25, n_quick=800,
+    "C08": Spec("C08", CORE + ITER + EMIT + RECOVER * 6 + ["NestedDelims"], obs_full, gen_hook=lambda G, rng: c08_hook(G, rng), sem_obs=obs_vv_emis, ekinds=("rich",), emit_bias=0.25, n_quick=800,
                 nontrivial=lambda g, inp: has_head(g, set(RECOVER)),
-                rule="C01/C02 grammars with recover_with(via_parser | skip_until | skip_then_retry_until) at random positions and nesting; "
+                rule="C01/C02 grammars with recover_with(via_parser | skip_until | skip_then_retry_until) at random positions and nesting, and "
+                     "via_parser(nested_delimiters(..)) (1..3 delimiter pairs) recovering delimited regions, with balanced / unbalanced / wrongly nested inputs; "
                      "non-trivial = a recovery node present"),
     "C09": Spec("C09", ["Just"], obs_vv, ekinds=("rich",), ikinds=("str", "slice"), n_quick=900, n_thorough=12000,
                 gen_hook=lambda G, rng: (G.pratt() if rng.random() < 0.8 else ["Then", G.pratt(), ["OrNot", ["Just", [rng.choice([59, 43, 42])]]]]),
@@ -493,6 +514,15 @@ def renumber_memo(g):
         return x
     return walk(g)
 SPECS["C11"].universe = dict(U(unary=[lambda x: ["Memo", 1, x]]), post=renumber_memo)
+SPECS["C07"].universe = U(unary=[lambda x: ["MapWith", "MWSpan", x], lambda x: ["ToSlice", x], lambda x: ["MapWith", "MWSlice", x]],
+                          binary=[lambda x, y: ["FoldlWith", x, ["IRep", y, 0, "inf"], 4], lambda x, y: ["FoldrWith", ["IRep", x, 0, "inf"], y, 4]])
+SPECS["C15"].universe = U(leaves=[["JustCfg", [A]]],
+                          unary=[lambda x: ["WithCtx", ["VTok", A], x], lambda x: ["WithCtx", ["VList", [["VTok", A], ["VTok", B]]], x], lambda x: ["MapCtx", "FDup", x],
+                                 lambda x: ["MapWith", "MWCtx", x], lambda x: ["Collect", "CVec", ["IRepCfg", x, 0, "inf", 0]],
+                                 lambda x: ["Collect", "CVec", ["IRepCfg", x, 1, 2, 8]], lambda x: ["RepUnit", ["IRepCfg", x, 0, "inf", 5]]],
+                          binary=[lambda x, y: ["IgnoreWithCtx", x, y], lambda x, y: ["ThenWithCtx", x, y]])
+SPECS["C12"].universe = dict(U(leaves=[["Var", 0]], unary=[lambda x: ["DelimitedBy", x, ["Just", [A]], ["Just", [B]]]]),
+                             post=lambda g: ["Rec" if sx(g).count("(") % 2 == 0 else "RecDecl", ["Or", ["IgnoreThen", ["Just", [A]], g], ["Just", [B]]]])
 SPECS["C10"].kind_cases = c10_graphemes
 SPECS["C10"].all_kinds = True
 SPECS["C10"].extra_cases = c10_long
